@@ -3,6 +3,7 @@ proof: Block/Charge.v, Programs(Laws).v, Struct(Laws).v; tie: the extracted wf_s
 result, operand and intermediate of generated operation cases and operation sequences (all op kinds x 7 symmetries), next to
 is_consistent() and the oracle's charge formula."""
 import json
+import numpy as np
 import vlib, tcheck
 
 PROP_V = 'properties/C02.v'
@@ -15,6 +16,81 @@ def sym_index(info, sym):
         if c['sym_id'] == sym:
             return i
     raise KeyError(sym)
+
+
+def must_reject(ctx, quick):
+    """operations whose precondition fails must be REJECTED (YastnError), never answered with an ill-formed tensor:
+    (a) diag() of a non-diagonal matrix whose legs have equal signatures; (b) a block whose dimension on ANY leg contradicts the dimension the same
+    charge already has on that leg"""
+    import yastn, tgen
+    rng = ctx.rng
+    for rep in range(200 if quick else 2000):
+        sym = rng.choice(['U1', 'Z2', 'Z3', 'U1xU1'])
+        cfg = tgen.make_cfg(sym)
+        # (a)
+        sg = rng.choice([1, -1])
+        l = tgen.rleg(rng, cfg, sym, s=sg, maxD=3)
+        try:
+            # legs (t, D) and (-t, D) with equal signatures: every block is square and the tensor charge is zero
+            neg = [tuple(int(x) for x in np.atleast_1d(cfg.sym.add_charges(t, signatures=(1,), new_signature=-1))) for t in l.t]
+            order = sorted(range(len(neg)), key=lambda i: neg[i])
+            lneg = yastn.Leg(cfg, s=sg, t=[neg[i] for i in order], D=[l.D[i] for i in order])
+            a = yastn.rand(cfg, legs=[l, lneg], n=cfg.sym.zero())
+        except yastn.YastnError:
+            a = None
+        if a is not None and a.size > 0:
+            desc = dict(kind='diag-equal-signatures', sym=sym, s=sg, legs=str(l), rep=rep)
+            ctx.case(desc, nontrivial=True)
+            ctx.count('must-reject:diag')
+            try:
+                d = a.diag()
+                ctx.violation('diag() of a non-diagonal matrix with signatures %r was answered (isdiag=%s, s=%r) instead of rejected; its dense form has elements in symmetry-forbidden sectors' % (
+                    (sg, sg), d.isdiag, d.s), desc)
+            except yastn.YastnError:
+                pass
+        # (b)
+        r = rng.randint(2, 4)
+        legs = [tgen.rleg(rng, cfg, sym, maxD=3, nsec=2) for _ in range(r)]
+        try:
+            a = tgen.rtensor(rng, cfg, legs, n=tgen.allowed_charge(rng, cfg, sym, legs), drop=0.5)      # some allowed blocks are absent
+        except yastn.YastnError:
+            continue
+        blocks = a.get_blocks_charge()
+        if len(blocks) < 1:
+            continue
+        nsym = cfg.sym.NSYM
+        # a NEW block that shares its charge on leg i with an existing block but claims another dimension there
+        i = rng.choice([0, r - 1, rng.randrange(r)])        # first, last, any
+        cand = None
+        for _ in range(30):
+            ts = [rng.choice(lg.t) for lg in legs]
+            tn = cfg.sym.add_charges(*ts, signatures=tuple(lg.s for lg in legs))
+            if tuple(np.atleast_1d(tn).tolist()) == tuple(np.atleast_1d(a.n).tolist()):
+                flat = tuple(c for t in ts for c in t)
+                if flat not in blocks:
+                    cand = ts
+                    break
+        if cand is None:
+            continue
+        b = a.copy()
+        Ds = [lg.D[lg.t.index(t)] for lg, t in zip(legs, cand)]
+        if cand[i] not in a.get_legs(i).t:
+            continue                    # no stored block fixes the dimension of that charge on leg i: nothing to contradict
+        Ds[i] += 1
+        desc = dict(kind='set_block-conflicting-dimension', sym=sym, rank=r, leg=i, rep=rep)
+        ctx.case(desc, nontrivial=True)
+        ctx.count('must-reject:set_block:leg%d-of-%d' % (i, r))
+        try:
+            b.set_block(ts=tuple(cand), Ds=tuple(Ds), val='rand')
+            ok = False
+            try:
+                ok = b.is_consistent()
+            except (yastn.YastnError, AssertionError):
+                ok = None
+            ctx.violation('set_block accepted a block of shape %r although charge %r already has dimension %d on leg %d of %d (is_consistent afterwards: %r)' % (
+                tuple(Ds), cand[i], Ds[i] - 1, i, r, ok), desc)
+        except yastn.YastnError:
+            pass
 
 
 def run(ctx):
@@ -90,6 +166,7 @@ def run(ctx):
         ctx.extra['coq_vm_sample'] = dict(n=ns, mismatches=len(idx), ok=ok)
         if not ok and not bad:
             ctx.broken.append('in-Coq vm_compute sample disagrees with the extracted wf_struct at %r' % idx[:5])
+    must_reject(ctx, quick)
     ctx.extra['wf_struct_evaluations'] = len(wf_jobs)
     for b in bad[:5]:
         ctx.violation('wf_struct (Coq model) rejects the %s of %s case seed %d' % (b['which'], b['kind'], b['seed']), b)
